@@ -68,6 +68,10 @@ func GetLengthLimitedID(fixedPrefix, suffix string, maxLength int) string {
 			log.Panicf("GetLengthLimitedID: maxLength %d is too small for prefix %q (length %d); "+
 				"need at least %d", maxLength, fixedPrefix, prefixLen, prefixLen+2)
 		}
+		if charsLeftForHash > len(hash) {
+			// There's more room than hash; use all of it.
+			charsLeftForHash = len(hash)
+		}
 		return fixedPrefix + shortenedPrefix + hash[0:charsLeftForHash]
 	}
 	// No need to shorten.
